@@ -37,6 +37,14 @@ type vcFinal struct {
 	Pool    []string `json:"pool"`
 }
 
+// JSON null is not a value the TLA+ Json module reads
+func vcNN(f vcFinal) vcFinal {
+	if f.Pool == nil {
+		f.Pool = []string{}
+	}
+	return f
+}
+
 type vcRec struct {
 	Fn        string   `json:"fn"`
 	Plan      []int    `json:"plan"`
@@ -321,7 +329,7 @@ func TestVerifCrash(t *testing.T) {
 			}
 			chk, ms, rs, fin, left := vcRun(t, img, cfg, steps, verify, pub, hook)
 			os.Remove(img + ".done")
-			_ = enc.Encode(vcRec{Fn: "crash", Plan: []int{k}, After: []string{after}, Verify: verify, Check: chk, CheckMs: ms, Restart: rs, Final: fin, Expected: expected, Commits: commits, StepsLeft: left})
+			_ = enc.Encode(vcRec{Fn: "crash", Plan: []int{k}, After: []string{after}, Verify: verify, Check: chk, CheckMs: ms, Restart: rs, Final: vcNN(fin), Expected: expected, Commits: commits, StepsLeft: left})
 			if depth >= 2 && !verify {
 				for j := range commits2 {
 					img2 := filepath.Join(dir, fmt.Sprintf("work2_%d_%d.db", k, j))
@@ -329,7 +337,7 @@ func TestVerifCrash(t *testing.T) {
 						t.Fatal(err)
 					}
 					chk, ms, rs, fin, left := vcRun(t, img2, cfg, steps, j%2 == 0, pub, nil)
-					_ = enc.Encode(vcRec{Fn: "crash", Plan: []int{k, j}, After: []string{after, commits2[j]}, Verify: j%2 == 0, Check: chk, CheckMs: ms, Restart: rs, Final: fin, Expected: expected, Commits: commits, StepsLeft: left})
+					_ = enc.Encode(vcRec{Fn: "crash", Plan: []int{k, j}, After: []string{after, commits2[j]}, Verify: j%2 == 0, Check: chk, CheckMs: ms, Restart: rs, Final: vcNN(fin), Expected: expected, Commits: commits, StepsLeft: left})
 				}
 			}
 		}
